@@ -31,6 +31,159 @@ func RunC09(c *Ctx) {
 		}
 		runC09History(c, idx)
 	}
+	for idx := 0; idx < c.N(48, 600); idx++ {
+		if c.Mine(idx) {
+			runC09Restart(c, idx)
+		}
+	}
+}
+
+// runC09Restart: update-index numbering restarts after the stack became empty, so the same
+// update-index ranges are committed a second time with different content while a second
+// handle B still holds the tables of the first time. B is stale: its Add must fail with
+// ErrLockFailure and refresh it, or - whatever the implementation decides - B must end up
+// showing the committed state after its own successful Add, never the long-deleted refs.
+func runC09Restart(c *Ctx, idx int) {
+	r := c.Rep
+	rng := gen.NewRng(gen.Mix(c.Seed^0xc09e, int64(idx)))
+	gcfg := cfgForHistory(rng, idx)
+	cfg := rtx.Config(gcfg)
+	hs := gcfg.HashSize()
+	dir := c.TempDir(fmt.Sprintf("c09r-%d", idx))
+	if idx%3 == 2 {
+		dir = c.DiskDir(fmt.Sprintf("c09r-%d", idx))
+	}
+	defer os.RemoveAll(dir)
+	hc := histCase{Prop: c.Prop, Seed: c.Seed, Index: idx, Gen: "runC09Restart", Cfg: gcfg.String()}
+	fail := func(props []string, sig, d string) {
+		h := hc
+		h.Detail = d
+		h.Ops = append([]string(nil), hc.Ops...)
+		r.Violate(props, sig, d, h)
+	}
+	a, err := stx.Open(dir, cfg)
+	if err != nil {
+		return
+	}
+	defer func() { stx.SafeClose(a) }()
+	model := gen.NewModel(hs, gcfg.ExactLog)
+	id := 0
+	rounds := 1 + idx%3 // tables per generation: 2, 3 or 4 one-ref transactions
+	gen1 := func(prefix string) bool {
+		for i := 0; i <= rounds; i++ {
+			id++
+			t := &gen.Txn{ID: id, Refs: []gen.Ref{{Name: fmt.Sprintf("refs/heads/%s%d", prefix, i), Kind: gen.KVal, Value: gen.IDHash(id, 0, hs)}}}
+			ui, err := stx.Apply(a, t)
+			hc.Ops = append(hc.Ops, fmt.Sprintf("A add %s%d -> ui=%d %v; list %v", prefix, i, ui, err, mustList(dir)))
+			if err != nil {
+				fail([]string{"C04"}, "sequential-add-failed|"+errClass(err), fmt.Sprintf("Add by the only writer failed: %v", err))
+				return false
+			}
+			model.Apply(t, ui)
+		}
+		return true
+	}
+	if !gen1("x") {
+		return
+	}
+	// some cases compact the first generation fully, so that both generations end in one
+	// table covering the same range
+	full := idx%2 == 0
+	if full {
+		if err := rtx.Safe(func() error { return a.CompactAll(nil) }); err != nil {
+			fail([]string{"C04"}, "fresh-compactall-failed|"+errClass(err), err.Error())
+			return
+		}
+	}
+	firstNames := mustList(dir)
+	b, err := stx.Open(dir, cfg)
+	if err != nil {
+		fail([]string{"C05"}, "open-failed", err.Error())
+		return
+	}
+	defer func() { stx.SafeClose(b) }()
+	hc.Ops = append(hc.Ops, fmt.Sprintf("B opens: %v", stx.Names(b)))
+	// delete everything, compact to nothing
+	id++
+	del := &gen.Txn{ID: id}
+	for _, n := range model.LiveNames() {
+		del.Refs = append(del.Refs, gen.Ref{Name: n, Kind: gen.KDel})
+	}
+	ui, err := stx.Apply(a, del)
+	if err != nil {
+		fail([]string{"C04"}, "sequential-add-failed|"+errClass(err), err.Error())
+		return
+	}
+	model.Apply(del, ui)
+	if err := rtx.Safe(func() error { return a.CompactAll(nil) }); err != nil {
+		fail([]string{"C04"}, "fresh-compactall-failed|"+errClass(err), err.Error())
+		return
+	}
+	hc.Ops = append(hc.Ops, fmt.Sprintf("A deletes every ref and compacts: list %v", mustList(dir)))
+	if len(mustList(dir)) != 0 {
+		r.Inconclusive++
+		r.Note("restart case: the list did not become empty (%v)", mustList(dir))
+		return
+	}
+	if !gen1("y") {
+		return
+	}
+	if full {
+		if err := rtx.Safe(func() error { return a.CompactAll(nil) }); err != nil {
+			fail([]string{"C04"}, "fresh-compactall-failed|"+errClass(err), err.Error())
+			return
+		}
+	}
+	r.Evaluations++
+	secondNames := mustList(dir)
+	sameRanges := len(firstNames) == len(secondNames)
+	for i := 0; sameRanges && i < len(firstNames); i++ {
+		sameRanges = len(firstNames[i]) > 30 && len(secondNames[i]) > 30 && firstNames[i][:29] == secondNames[i][:29]
+	}
+	if sameRanges {
+		r.Count("restart_same_ranges_committed_twice", 1)
+		r.Nontrivial(rep.Hash("c09r", fmt.Sprint(c.Seed), fmt.Sprint(idx)))
+	}
+	hc.Ops = append(hc.Ops, fmt.Sprintf("second generation: list %v (first generation was %v)", secondNames, firstNames))
+	// B, idle since the first generation, now writes
+	id++
+	t := &gen.Txn{ID: id, Refs: []gen.Ref{{Name: "refs/heads/z", Kind: gen.KVal, Value: gen.IDHash(id, 0, hs)}}}
+	before := stx.DirSnapshot(dir)
+	ui, err = stx.Apply(b, t)
+	hc.Ops = append(hc.Ops, fmt.Sprintf("B (holding %v) add z -> ui=%d %v", firstNames, ui, err))
+	if err == nil {
+		fail([]string{"C09"}, "stale-add-succeeded|after-index-restart", fmt.Sprintf("B still held the first generation %v while the list was %v, its Add succeeded", firstNames, secondNames))
+		return
+	}
+	if err != reftable.ErrLockFailure {
+		fail([]string{"C09"}, "stale-add-wrong-error|"+errClass(err), fmt.Sprintf("stale Add failed with %v, want ErrLockFailure %s", err, PanicDetail(err)))
+		return
+	}
+	if !stx.SameSnapshot(before, stx.DirSnapshot(dir)) {
+		fail([]string{"C09", "C16"}, "stale-add-changed-directory", fmt.Sprintf("failed stale Add changed the directory: %v -> %v", before, stx.DirSnapshot(dir)))
+		return
+	}
+	ui, err = stx.Apply(b, t)
+	hc.Ops = append(hc.Ops, fmt.Sprintf("B retry -> ui=%d %v", ui, err))
+	if err != nil {
+		fail([]string{"C09"}, "retry-failed|"+errClass(err), fmt.Sprintf("immediate retry after the failed stale Add failed: %v %s", err, PanicDetail(err)))
+		return
+	}
+	model.Apply(t, ui)
+	refs, logs, verr := stx.View(b)
+	if verr != nil {
+		fail([]string{"C10", "C09"}, "view-read-failed-after-retry|"+errClass(verr), verr.Error())
+		return
+	}
+	if got, want := gen.Dump(refs, logs), model.Dump(); got != want {
+		fail([]string{"C09", "C10"}, "view-after-own-add-differs", fmt.Sprintf("after its successful Add B's view is not the committed state: %s", gen.DiffLines(want, got)))
+		return
+	}
+	if fd, _, err := stx.FreshView(dir, cfg); err != nil || fd != model.Dump() {
+		fail([]string{"C04"}, "sequential-view-mismatch", fmt.Sprintf("fresh view after the restart history: err %v %s", err, gen.DiffLines(model.Dump(), fd)))
+		return
+	}
+	r.Count("restart_histories", 1)
 }
 
 func runC09History(c *Ctx, idx int) {
@@ -98,10 +251,27 @@ func runC09History(c *Ctx, idx int) {
 		hi := rng.Intn(nh)
 		h := handles[hi]
 		stale := isStale(h)
+		if !stale {
+			// a handle whose tables are exactly the listed ones shows the committed state
+			// (table names are unique per content, so equal names mean equal files)
+			refs, logs, verr := stx.View(h)
+			if verr != nil {
+				fail([]string{"C10", "C09"}, "up-to-date-handle-read-failed|"+errClass(verr), fmt.Sprintf("h%d holds exactly the listed tables %v but reading through it failed: %v", hi, stx.Names(h), verr))
+				return
+			}
+			if got, want := gen.Dump(refs, logs), model.Dump(); got != want {
+				fail([]string{"C09", "C10"}, "up-to-date-handle-view-differs", fmt.Sprintf("h%d holds exactly the listed tables %v but its view is not the committed state: %s", hi, stx.Names(h), gen.DiffLines(want, got)))
+				return
+			}
+			r.Count("up_to_date_handle_views_checked", 1)
+		}
 		before := stx.DirSnapshot(dir)
 		lbBefore := listBytes()
-		kinds := []string{"add", "add", "add", "newaddition", "compactall", "autocompact", "clean", "reopen", "add-big", "commit-noauto", "commit-noauto", "compactrange", "add-while-locked", "compactexpiry"}
+		kinds := []string{"add", "add", "add", "newaddition", "compactall", "autocompact", "clean", "reopen", "add-big", "commit-noauto", "commit-noauto", "compactrange", "add-while-locked", "compactexpiry", "add-old-index"}
 		kind := kinds[rng.Intn(len(kinds))]
+		if kind == "add-old-index" && maxUI == 0 {
+			kind = "add"
+		}
 		if opts.NoLogs && !stale && rng.Chance(0.25) {
 			kind = "compactall"
 		}
@@ -191,6 +361,42 @@ func runC09History(c *Ctx, idx int) {
 				}
 				r.Count("adds_under_foreign_lock", 1)
 			}
+		}
+		if kind == "add-old-index" {
+			// a write prepared earlier: its table carries an update index that has been
+			// committed in the meantime (the caller computed it before another handle's
+			// Add, or retries a prepared write). It can never commit - the listed ranges
+			// stay strictly increasing - whether or not the handle is stale.
+			old := maxUI
+			if rng.Chance(0.3) {
+				old = 1
+			}
+			id++
+			t := gen.GenTxn(rng, id, model, opts)
+			err := rtx.Safe(func() error {
+				return h.Add(func(w *reftable.Writer) error { return stx.WriteTxn(w, t, old) })
+			})
+			hc.Ops = append(hc.Ops, fmt.Sprintf("%s t%d at update index %d (committed max %d) -> %v", desc, t.ID, old, maxUI, err))
+			if rtx.IsPanic(err) {
+				fail([]string{"C09", "C16"}, "add-old-index-"+PanicSig(err), fmt.Sprintf("Add of a table with an already committed update index panicked: %s", PanicDetail(err)))
+				return
+			}
+			if err == nil || !unchanged() {
+				fail([]string{"C09", "C05"}, "add-with-committed-update-index-"+map[bool]string{true: "succeeded", false: "changed-directory"}[err == nil], fmt.Sprintf("Add of a table at update index %d (committed max %d, handle stale=%v) returned %v; directory %v -> %v; list %q -> %q", old, maxUI, stale, err, before, stx.DirSnapshot(dir), lbBefore, listBytes()))
+				return
+			}
+			r.Count("adds_with_committed_update_index", 1)
+			if stale {
+				r.Nontrivial(rep.Hash("c09", fmt.Sprint(c.Seed), fmt.Sprint(idx), fmt.Sprint(op)))
+			}
+			// the failed Add refreshed the handle: the proper retry succeeds
+			if isStale(h) {
+				fail([]string{"C09"}, "not-refreshed-after-failed-add|old-index", fmt.Sprintf("after the failed Add the handle holds %v, the list is %v", stx.Names(h), mustList(dir)))
+				return
+			}
+			kind = "add"
+			stale = false
+			desc = fmt.Sprintf("h%d retry after add-old-index", hi)
 		}
 		switch kind {
 		case "add-while-locked":
